@@ -372,3 +372,56 @@ def c10_cli(tier, rng):
                              "replay_call": "contracts.c_state:replay_cli"})
     return {"cases": cases, "bound": "%d histories (A then B vs B alone), threads %s" % (len(HISTORIES), "1" if tier == "quick" else "1 and 2"),
             "violations": viol, "samples": [{"history": h, "A": HISTORIES[h][0], "B": HISTORIES[h][1]} for h in HISTORIES]}
+
+
+# ---- YAML with several experiments: each experiment is parsed as if it stood alone -----------------------------------------------------------
+@finite("C10.yaml_experiments", ["C10"], note="the real InputDataStorage.get_samples_from_yaml on every ordered selection of <= 3 experiments from 6 "
+        "experiment shapes (one / two files, with / without labels, with / without short-read BAMs, named / unnamed): files, labels and "
+        "short-read files of each experiment equal those of the YAML that contains this experiment alone")
+def c10_yaml(tier, rng):
+    import itertools, os, shutil, tempfile
+    ids = native.repo_import("src/input_data_storage.py")
+    base = os.path.join(os.path.dirname(os.path.dirname(os.path.abspath(__file__))), ".run")
+    os.makedirs(base, exist_ok=True)
+    d = tempfile.mkdtemp(prefix="yaml", dir=base)
+    shapes = {
+        "plain": {"name": "plain", "long read files": ["a1.bam"]},
+        "two": {"name": "two", "long read files": ["b1.bam", "b2.bam"], "labels": ["L1", "L2"]},
+        "sr": {"name": "sr", "long read files": ["c1.bam"], "illumina bam": ["c_sr.bam"]},
+        "sr2": {"name": "sr2", "long read files": ["d1.bam", "d2.bam"], "illumina bam": ["d_sr1.bam", "d_sr2.bam"]},
+        "nolab": {"name": "nolab", "long read files": ["sub/e1.bam"]},
+        "lab": {"name": "lab", "long read files": ["f1.bam"], "labels": ["only"]},
+    }
+
+    def parse(exps):
+        import yaml
+        path = os.path.join(d, "in.yaml")
+        yaml.safe_dump([{"data format": "bam"}] + [shapes[e] for e in exps], open(path, "w"))
+        st = ids.InputDataStorage.__new__(ids.InputDataStorage)
+        st.samples, st.input_type, st.experiment_prefix = [], "", "exp"
+        import contextlib, io
+        with contextlib.redirect_stdout(io.StringIO()):
+            files, names, readable, illumina = st.get_samples_from_yaml(path)
+        return {n: (files[i], dict(readable[n]), illumina[i]) for i, n in enumerate(names)}
+    obl = dis = 0
+    viol = []
+    try:
+        alone = {e: parse([e])[e] for e in shapes}
+        for n in (2, 3):
+            for exps in itertools.permutations(sorted(shapes), n):
+                obl += 1
+                try:
+                    got = parse(list(exps))
+                    bad = [e for e in exps if got.get(e) != alone[e]]
+                    detail = {e: got.get(e) for e in bad}
+                except BaseException as ex:
+                    bad, detail = list(exps), "%s: %s" % (type(ex).__name__, ex)
+                if not bad:
+                    dis += 1
+                elif len(viol) < 3:
+                    viol.append({"obligation": "C10.yaml_experiments." + "_".join(exps), "inputs": {"experiments": list(exps)},
+                                 "observed": detail, "required": {e: alone[e] for e in bad}})
+    finally:
+        shutil.rmtree(d, ignore_errors=True)
+    return {"obligations": obl, "discharged": dis, "violations": viol, "cases": obl, "exhaustive": True,
+            "bound": "ordered selections of 2-3 experiments out of 6 shapes", "samples": [{"experiments": ["sr", "plain"]}]}
